@@ -35,12 +35,15 @@ def F(v):
     return [Fraction(int(x)) for x in v]
 
 
+DEN = [1.0]  # all Cartesian coordinates of a case are divided by this (set per case): for 10, 3, 7 the floats have full mantissas
+
+
 def P(v):
-    return Point(np.append(np.array([float(x) for x in v]), 1.0))
+    return Point(hom(v))
 
 
 def hom(v):
-    return np.append(np.array([float(x) for x in v]), 1.0)
+    return np.append(np.array([float(x) for x in v]) / DEN[0], 1.0)
 
 
 ES = [1.0, 1.0]  # factors of the homogeneous representatives of the two end points of the segments built by SEG (set per case)
@@ -52,6 +55,9 @@ def set_endpoint_scales(c):
     if len(es) != 2 or any(not isinstance(k, int) or not 0 <= k < len(ES_VALUES) for k in es):
         raise Skip("malformed")
     ES[0], ES[1] = ES_VALUES[es[0]], ES_VALUES[es[1]]
+    if c.get("den", 1) not in (1, 3, 7, 10):
+        raise Skip("malformed")
+    DEN[0] = float(c.get("den", 1))
 
 
 def SEG(p, q):
@@ -96,7 +102,7 @@ def seg_case(draw, tier="quick"):
     return {"what": what, "v": [draw(C.ints(5)) for _ in range(12)], "mode": draw(st.sampled_from(["generic", "generic", "touch_endpoint", "collinear", "parallel", "T"])),
             "frame": [draw(C.ints(3)) for _ in range(9)], "t": draw(st.integers(-2, 4)), "skew": draw(st.booleans()),
             "derive": draw(st.sampled_from(Z.DERIVATIONS)), "move": [draw(st.integers(-4, 4)) for _ in range(3)],
-            "es": [draw(st.sampled_from([0, 0, 1, 2, 3])), draw(st.sampled_from([0, 0, 1, 2, 3]))]}
+            "es": [draw(st.sampled_from([0, 0, 1, 2, 3])), draw(st.sampled_from([0, 0, 1, 2, 3]))], "den": draw(st.sampled_from([1, 1, 10, 3, 7]))}
 
 
 def seg_pair(c):
@@ -155,7 +161,7 @@ def run_seg(c):
         r = list(r)
         if res[0] == "overlap":
             if what == "seg_seg2_coll":
-                ck.check(any(C.peq_all(np.asarray(p.array), np.array([101.0, 101.0, 1.0]), 1, 1e-7) for p in r), f"{what}:{mode}:crossing-pair-next-to-overlapping-pairs", [np.asarray(p.array).tolist() for p in r])
+                ck.check(any(C.peq_all(np.asarray(p.array), hom([101, 101]), 1, 1e-7) for p in r), f"{what}:{mode}:crossing-pair-next-to-overlapping-pairs", [np.asarray(p.array).tolist() for p in r])
             return ck.result()
         exp = [res[1]] if res[0] == "point" else []
         if what == "seg_seg2_coll":
@@ -217,10 +223,10 @@ def run_seg(c):
         sh = np.array([3.0, -2.0, 5.0])
         # fourth position: two segments of one line that share exactly one end point (b' = c')
         t0, t1, t2 = e3(a) - 7 * nrm, e3(b) - 7 * nrm, e3(b) - 7 * nrm + 2 * (e3(b) - e3(a))
-        A1 = PointCollection(np.stack([np.append(e3(a), 1), np.append(e3(a), 1), np.append(e3(a) + sh, 1), np.append(t0, 1)]))
-        B1 = PointCollection(np.stack([np.append(e3(b), 1), np.append(e3(b), 1), np.append(e3(b) + sh, 1), np.append(t1, 1)]))
-        C1 = PointCollection(np.stack([np.append(e3(cc), 1), np.append(e3(cc) + nrm, 1), np.append(e3(cc) + sh, 1), np.append(t1, 1)]))
-        D1 = PointCollection(np.stack([np.append(e3(d), 1), np.append(e3(d) + 2 * nrm, 1), np.append(e3(d) + sh, 1), np.append(t2, 1)]))
+        A1 = PointCollection(np.stack([hom(e3(a)), hom(e3(a)), hom(e3(a) + sh), hom(t0)]))
+        B1 = PointCollection(np.stack([hom(e3(b)), hom(e3(b)), hom(e3(b) + sh), hom(t1)]))
+        C1 = PointCollection(np.stack([hom(e3(cc)), hom(e3(cc) + nrm), hom(e3(cc) + sh), hom(t1)]))
+        D1 = PointCollection(np.stack([hom(e3(d)), hom(e3(d) + 2 * nrm), hom(e3(d) + sh), hom(t2)]))
         M = np.stack([np.append(e3(a), 1), np.append(e3(b), 1), np.append(e3(cc) + nrm, 1), np.append(e3(d) + 2 * nrm, 1)])
         if abs(np.linalg.det(M)) < 0.5:
             raise Skip("middle pair not skew")
@@ -279,8 +285,11 @@ def poly_case(draw, tier="quick"):
     n = draw(st.integers(3, 6))
     idx = sorted(draw(st.permutations(range(16)))[:n])
     return {"idx": idx, "radii": [draw(st.integers(1, 3)) for _ in range(n)], "off": [draw(C.ints(4)), draw(C.ints(4))], "dim": draw(st.sampled_from([2, 2, 3])),
-            "frame": [draw(C.ints(3)) for _ in range(9)], "other": draw(st.sampled_from(["line", "segment"])), "mode": draw(st.sampled_from(["generic", "vertex", "two_vertices", "along_edge", "miss", "inplane", "parallel"])),
+            "frame": [draw(C.ints(3)) for _ in range(9)], "other": draw(st.sampled_from(["line", "segment"])), "mode": draw(st.sampled_from(["generic", "vertex", "two_vertices", "along_edge", "miss", "inplane", "parallel", "level", "level"])),
             "q": [draw(st.integers(-8, 16)) for _ in range(4)], "k": draw(st.integers(0, 5)), "h": draw(st.sampled_from([1, 2, -1, 3])),
+            # polygons of 3-space: all coordinates divided by den (for 10, 3, 7 the floats have full mantissas and the arithmetic of the library is
+            # inexact), and planes parallel to two coordinate axes (the projection inside the library then keeps the in-plane coordinates)
+            "den": draw(st.sampled_from([1, 1, 10, 3, 7])), "axisplane": draw(st.sampled_from([None, None, 0, 1, 2])),
             "derive": draw(st.sampled_from(Z.DERIVATIONS)), "move": [draw(st.integers(-4, 4)) for _ in range(3)],
             "es": [draw(st.sampled_from([0, 0, 1, 2, 3])), draw(st.sampled_from([0, 0, 1, 2, 3]))],
             "vf": [draw(st.sampled_from([1.0, 1.0, -1.0, 2.0, -0.5])) for _ in range(6)]}
@@ -303,6 +312,9 @@ def run_poly(c):
         A, B = pts[k], pts[(k + 2) % n]
     elif mode == "along_edge":
         A, B = pts[k], pts[(k + 1) % n]
+    elif mode == "level":
+        # level with a vertex: the horizontal ray of the crossing-number test runs through that vertex
+        A = [A[0], pts[k][1]]
     if A == B:
         raise Skip("degenerate")
     ck = Checker()
@@ -338,7 +350,7 @@ def run_poly(c):
                 q = np.asarray(p.array)
                 if not ck.check(bool(np.all(np.isfinite(q))) and abs(q[-1]) > 1e-9 * max(1e-300, float(np.max(np.abs(q)))), site + ":overlap:returned-point-finite", np.asarray(q).tolist()):
                     continue
-                q = [Fraction(float(np.real(x))).limit_denominator(1000) for x in q[:-1] / q[-1]]
+                q = [Fraction(float(np.real(x))).limit_denominator(1000) for x in q[:-1] / q[-1] * DEN[0]]
                 onb = any(X.on_segment(pts[i], pts[(i + 1) % n], q) for i in range(n))
                 ck.check(onb, site + ":overlap:returned-point-on-boundary", [float(x) for x in q])
             return ck.result()
@@ -356,17 +368,23 @@ def run_poly(c):
     w = np.array(c["frame"][6:9], float)
     if np.linalg.matrix_rank(np.stack([u, w])) < 2:
         raise Skip("degenerate frame")
+    den = c.get("den", 1)
+    if den not in (1, 3, 7, 10):
+        raise Skip("malformed")
+    if c.get("axisplane") is not None:
+        ax = int(c["axisplane"]) % 3
+        o, u, w = np.roll([0.0, 0.0, o[2]], ax), np.roll([1.0, 0.0, 0.0], ax), np.roll([0.0, 1.0, 0.0], ax)
     nrm = np.cross(u, w)
-    e3 = lambda p: o + float(p[0]) * u + float(p[1]) * w  # noqa: E731
+    e3 = lambda p: o + float(p[0]) * u + float(p[1]) * w  # noqa: E731  (P, hom and SEG divide by den)
     vf = [float(x) for x in (c.get("vf") or [1.0] * 6)] + [1.0] * 6
     if any(x == 0 or abs(x) > 4 for x in vf):
         raise Skip("malformed")
-    poly, f = call("polygon3:construct", Z.derive_moved, lambda rows: Polygon(rows), np.array([np.append(e3(p), 1.0) * vf[i] for i, p in enumerate(pts)]), c.get("derive"), c.get("move", [1, 2, 3]),
+    poly, f = call("polygon3:construct", Z.derive_moved, lambda rows: Polygon(rows), np.array([hom(e3(p)) * vf[i] for i, p in enumerate(pts)]), c.get("derive"), c.get("move", [1, 2, 3]),
                    lambda rows0: Point(rows0[0]), lambda p0: p0.intersect(Line(P(e3(A) + nrm), P(e3(A) - nrm))))
     if f:
         return [f]
     h = c["h"]
-    site = f"polygon3:{c['other']}:{mode}"
+    site = f"polygon3:{c['other']}:{mode}" + (":non-dyadic-coordinates" if den != 1 else "")
     if mode == "inplane":
         X1, X2 = e3(A), e3(B)
         exp = None
@@ -407,7 +425,7 @@ def poly_labels(c):
 
 
 def _poly_labels(c):
-    return [f"dim{c['dim']}", c["other"], c["mode"]] + (["vertex-representatives-of-mixed-sign"] if len({x > 0 for x in (c.get("vf") or [1.0])[: len(c["idx"])]}) > 1 else [])
+    return [f"dim{c['dim']}", c["other"], c["mode"]] + (["dim3:level-with-vertex:non-dyadic-coordinates" + (":axis-parallel-plane" if c.get("axisplane") is not None else "")] if c["dim"] == 3 and c["mode"] == "level" and c.get("den", 1) != 1 else []) + (["vertex-representatives-of-mixed-sign"] if len({x > 0 for x in (c.get("vf") or [1.0])[: len(c["idx"])]}) > 1 else [])
 
 
 # ------------------------------------------------------------------------------------------- cuboids
